@@ -98,8 +98,5 @@ func TestC07(t *testing.T) {
 	if e1Replayer(scs, col) {
 		return
 	}
-	item := 0
-	for _, sc := range scs {
-		e1Explore(sc, col, &item)
-	}
+	e1ExploreTiers(c07Scenarios, nil, col)
 }
